@@ -8,4 +8,4 @@ def run(ctx):
                 "than its maximum, create/receive succeed iff held < max (and a register is available for create), freed capacity is reusable, "
                 "two-qubit gates are never refused for capacity; distinct = distinct (capacities, operation, dump)")
     netprop.run_property(ctx, "C07", ["capacity", "capacity", "merge"], 1500 if t else 150, 30 if t else 24,
-                         scenarios=scen.capacity() + scen.register_limit(), own_props=["C07"])
+                         scenarios=scen.capacity() + scen.register_limit() + scen.big_merge(), own_props=["C07"])
